@@ -9,9 +9,21 @@ import (
 	"sort"
 	"strings"
 	"sync"
+	"sync/atomic"
 
 	"github.com/ohler55/slip"
 )
+
+// classGeneration is incremented each time a class is registered. A cache
+// entry is built from the precedence list of the argument classes so the
+// cache of a generic function is only valid for the generation it was built
+// in. Defining or redefining a class can change the precedence list of that
+// class and of the classes that inherit from it.
+var classGeneration atomic.Uint64
+
+func init() {
+	slip.AddClassHook("generic", func(_ *slip.Package, _ string) { classGeneration.Add(1) })
+}
 
 // Aux encapsulates the auxiliary data for a generic function.
 type Aux struct {
@@ -19,6 +31,7 @@ type Aux struct {
 	reqCnt int
 	// Keys to the cache and methods is a join of then types separated by '|'.
 	cache         map[string]*slip.Method
+	cacheGen      uint64
 	methods       map[string]*slip.Method
 	defaultKey    string
 	defaultCaller slip.Caller
@@ -63,6 +76,12 @@ func (aux *Aux) Call(gf slip.Object, s *slip.Scope, args slip.List, depth int) s
 	}
 	// Any further argument checking gets tricky as optinal could be keywords
 	// depending on then method's forms.
+	if gen := classGeneration.Load(); gen != aux.cacheGen {
+		if 0 < len(aux.cache) {
+			aux.cache = map[string]*slip.Method{}
+		}
+		aux.cacheGen = gen
+	}
 	key := buildSpecKey(args[:aux.reqCnt])
 	meth := aux.cache[key]
 	if meth == nil {
